@@ -358,7 +358,7 @@ def disk_attrs(pid, fam, work, tier='quick'):
         # walked before everything else: every worker handles ordinary files right after a slow one
         for k in range(5):
             os.makedirs(root + '/00slow', exist_ok=True)
-            open('%s/00slow/S%d.java' % (root, k), 'w').write('public class S%d {\n  void before() { int q = %d + 2; }\n  /* ' % (k, k) + '/* x ' * 9000 + '\n')
+            open('%s/00slow/S%d.java' % (root, k), 'w').write('public class S%d {\n  void before() { int q = %d + 2; }\n  /* ' % (k, k) + '/* x ' * 30000 + '\n')
         stats['slow_parse_files'] = 5
     out = work + '/diskattrs_dump.txt'
     # default environment, then every variable the sources read (the general matrix is applied in the C03 census and the C04/C09 disk stage)
